@@ -518,7 +518,12 @@ where
         // Also note that this does come at some perf cost, but
         // this function is only called on initialization and
         // subscriber reloading.
-        if super::subscriber_is_none(&self.subscriber) {
+        //
+        // A subscriber that merely *contains* a `None` subscriber (e.g. an
+        // `and_then` or `Vec` of a real subscriber and a `None`) also
+        // downcasts to the "none" marker, but it has its own hint; only an
+        // `OFF` hint actually comes from a `None` subscriber.
+        if super::subscriber_is_none(&self.subscriber) && outer_hint == Some(LevelFilter::OFF) {
             return cmp::max(outer_hint, Some(inner_hint?));
         }
 
